@@ -190,12 +190,12 @@ class ComplexBingham(_ProbabilisticModel):
         diff = np.diff(covariance_eigenvalues, axis=-1)
         # eps = covariance_eigenvalues[..., -1] * eps
         # diff = np.maximum(diff, eps[..., None])
-        diff = np.maximum(diff, eps)
 
         # This reconstruction is not optimal, but an error of 1e-8
-        covariance_eigenvalues[..., 1:] = (
-                covariance_eigenvalues[..., 0][..., None]
-                + np.cumsum(diff, axis=-1)
+        # Only add the accumulated correction. Rebuilding the values from the
+        # smallest eigenvalue loses all others, when it is huge (e.g. -1e19).
+        covariance_eigenvalues[..., 1:] += np.cumsum(
+            np.maximum(eps - diff, 0), axis=-1
         )
 
         # https://stackoverflow.com/a/55737198/5766934
